@@ -531,6 +531,10 @@ impl<'a, T> ChordsV2<'a, T> {
                 },
                 _ => true,
             });
+            // The queue changed; the next pass must look at it again even if its length
+            // happens to be what it was before this pass (e.g. releases replaced the presses),
+            // otherwise those events wait until the countdown below has run out.
+            self.ticks_until_next_state_change = 0;
         }
     }
 
